@@ -202,6 +202,9 @@ func (pse *PubSubEvent) UnmarshalXML(d *xml.Decoder, start xml.StartElement) err
 					return err
 				}
 				pse.EventElement = ee
+			} else if err = d.Skip(); err != nil {
+				// unknown children are consumed whole: only our own end tag ends the element
+				return err
 			}
 		case xml.EndElement:
 			if tt == start.End() {
